@@ -131,8 +131,14 @@ def stepTiny (st : TinySt) (tl : Tally) (act : String) (ans : String) : TinySt Ã
     match getNat kv "width", getNat kv "mask", getNatList kv "seeds", getNat kv "exp",
           getNat kv "k", getNat kv "samples" with
     | some w, some m, some seeds, some e, some k, some s =>
+      -- the aging window is the configured `num_counters` (C13: "after every num_counters recorded
+      -- accesses"), not whatever the implementation stored
+      let n := (getNat kv "num_counters").getD s
+      let tl := if s == n then tl
+        else (tl.divergeAt "tiny.init.samples" (toString n) (toString s)).monitorAt "C13"
+          s!"the aging window is {s} accesses for num_counters={n}: the counters are not halved after every num_counters recorded accesses"
       let t : TinyLFU := { sk := Sketch.mk' seeds w m, dk := { exp := e, k := k, bits := [] },
-                           samples := s, w := 0 }
+                           samples := n, w := 0 }
       -- guard: the configuration meets the well-formedness hypothesis of the C13 theorems
       let tl := if m < 2 * w && !seeds.isEmpty && k > 0 then tl
         else tl.guardAt s!"sketch configuration outside WF: width={w} mask={m} depth={seeds.length} k={k}"
